@@ -1,5 +1,5 @@
 PROP = {
-    "thm": ["Umya.Thm.C15", "Umya.Thm.C15Gen"],
+    "thm": ["Umya.Thm.C15", "Umya.Thm.C15Gen", "Umya.Thm.C15Xml"],
     "harness": "c15",
     "level": "proof",
     "stateful": False,
@@ -7,14 +7,19 @@ PROP = {
                   "attribute writer/reader of SheetProtection / WorkbookProtection are modelled in Lean (salt as a parameter); the "
                   "stored hash equals the ECMA-376 iteration written independently from the standard for ALL passwords, salts and "
                   "spin counts (induction on the spin count); verification with the same password succeeds, with a password whose "
-                  "digest differs fails; no legacy attribute / raw value survives; write->read returns the same state. The model is "
+                  "digest differs fails; no legacy attribute / raw value survives; write->read returns the same state, on the attribute lists with the "
+                  "library's reader (C15_roundtrip) AND through the characters of the part (C15_roundtrip_xml_sheet / _workbook: record -> writer "
+                  "calls of writer/driver.rs with attribute escaping -> characters -> the independent XML 1.0 reader of Spec/XmlLex -> first child "
+                  "of that name -> set_attributes = the C06 codecs; algorithm name, salt, spin count, hash come back, no legacy attribute is among "
+                  "the attributes read; the element may stand anywhere among the root's children). The model is "
                   "tied to the code on every run through the real public setters, a real save and reload, and a cfg(umya_verif) hook "
                   "for the private hash function; the harness oracle recomputes every hash with the sha2 crate from the standard.",
     "level_note": "SHA-512 and base64 are NOT proved: theorems quantify over an abstract Prims value with explicit hypotheses "
                   "(unb64 (b64 x) = some x; base64 text needs no XML escaping; digest-distinctness for 'another password fails'). "
                   "The executable Lean SHA-512/base64 used by the driver are validated by FIPS 180-4 / RFC 4648 vectors and by agreeing "
                   "with the Rust sha2 crate on every line.",
-    "expect_theorems": ["C15_constants_match_source", "C15_hash_fn_matches_source", "C15_setters_match_source", "C15_hash", "C15_verifies", "C15_other_fails", "C15_no_clear", "C15_roundtrip"],
+    "expect_theorems": ["C15_constants_match_source", "C15_hash_fn_matches_source", "C15_setters_match_source", "C15_hash", "C15_verifies", "C15_other_fails", "C15_no_clear", "C15_roundtrip",
+                        "C15_roundtrip_xml_sheet", "C15_roundtrip_xml_workbook", "C15_no_legacy_attr_xml"],
     "rule": "hook stream: every password x spin in {0,1,2,3,10,257} x salt shape (empty / 16 random / 16 x 0xff / 1..40 random) plus a few "
             "at spin 100000; setter stream: every password (empty, ASCII, 1 char, XML-special, BMP scripts, non-BMP, 255 x ASCII, 255 mixed "
             "incl. non-BMP; thorough: 60 incl. random over a special alphabet) x 3 kinds x pre-state (fresh / legacy raw hash / old hashed "
@@ -33,11 +38,18 @@ PROP = {
     ],
     "assumptions": ["P.unb64 (P.b64 x) = some x", "base64 text contains none of < > & ' \"",
                     "C15_other_fails: the iterated digests of the two passwords differ (SHA-512 collision-freedom is a hypothesis)",
-                    "C15_roundtrip: kinds not being set hold XML-safe text (the reader does not un-escape attributes) and spin counts < 2^32"],
+                    "C15_roundtrip: kinds not being set hold XML-safe text (the reader does not un-escape attributes) and spin counts < 2^32",
+                    "C15_roundtrip_xml_*: base64 text consists of XML characters (B64Xml P; a theorem for the executable base64: C14_base64_plain); the rest of "
+                    "the part is well formed for the writer (Names, distinct attribute names, XML characters: Around.ok) and has no earlier sibling element of "
+                    "the same local name; for <workbookProtection> the kind not being set holds XML characters and a spin count < 2^32 (xmlFields; any "
+                    "characters incl. & < \" are allowed there: the writer escapes, the XML reader unescapes)"],
     "partial_clauses": [
         "salt freshness (getrandom) is not a functional property: explored by the harness (two calls differ), not proved",
         "textual absence of the clear password from every part of the saved zip: harness scan only (passwords of >= 8 bytes); the theorem "
         "C15_no_clear states absence of the legacy field/attribute and non-interference (state depends on the password only through the digest)",
+        "C15_roundtrip_xml_*: the C15 driver does not re-run the XML-level composition on the saved parts (its `stored` lines compare the attributes a "
+        "scanner finds in the saved XML and the reloaded getters); the tie of that composition is indirect: the writer-call level by C02 (`c02 part` "
+        "render=same on the parts of its own cases; C02_writer_matches_source), the field <-> attribute tables by C06_view_tables_match_source and C06's protection cases",
         "replay of a lone `stored` line assembles the object from the hook's hash with the public field setters (the public password setter cannot be given a salt)",
     ],
     "technique": "Lean 4 proof over a hand model (abstract SHA-512/base64) + differential check through public setters, save/reload and a hook",
